@@ -189,4 +189,56 @@ PUMP_MUTANTS = [
 ]
 MUTANTS += PUMP_MUTANTS
 
+MODE_MUTANTS = [
+    dict(id="c07-omit-thread", props=["C07"], rule="NI-2", names="process_tpms",
+         edits=[(MARSHAL, """                selector=selector_value,
+                size_constraints=size_constraints,
+                abort_on_error=abort_on_error,
+""", """                selector=selector_value,
+                size_constraints=size_constraints,
+""")]),
+    dict(id="c07-const-thread", props=["C07"], rule="NI-2", names="process_array",
+         edits=[(MARSHAL, """            parent_path / child_node,
+            size_constraints=size_constraints,
+            abort_on_error=abort_on_error,
+        )
+        elements.append(element)""", """            parent_path / child_node,
+            size_constraints=size_constraints,
+            abort_on_error=True,
+        )
+        elements.append(element)""")]),
+    dict(id="c07-early-return", props=["C07"], rule="NI-1", names="process_tpmu",
+         edits=[(MARSHAL, "    # TODO _selected_by\n", "    if not abort_on_error:\n        return 0, None\n    # TODO _selected_by\n")]),
+    dict(id="c07-new-error-object", props=["C07"], rule="NI-3", names="assert_done",
+         edits=[(CONSTR, "        if abort_on_error:\n            raise error\n        yield WarningEvent(error=error)\n\n        yield from consume_bytes",
+                 "        if abort_on_error:\n            raise error\n        yield WarningEvent(error=SizeConstraintSubceededError(self))\n\n        yield from consume_bytes")]),
+    dict(id="c07-drop-warning", props=["C07"], rule="NI-3", names="set_constraint",
+         edits=[(CONSTR, "            if abort_on_error:\n                raise error\n            yield WarningEvent(error=error)\n", "            if abort_on_error:\n                raise error\n            pass\n")]),
+    dict(id="c07-store-mode", props=["C07"], rule="NI-1", names="set_constraint",
+         edits=[(CONSTR, "        self.constraint_path = constraint_path\n        self.size_max = size_max\n", "        self.constraint_path = constraint_path\n        self.size_max = size_max\n        self.strict = abort_on_error\n")]),
+    dict(id="c07-conditional-warning", props=["C07"], rule="NI-3", names="process_primitive",
+         edits=[(MARSHAL, "    if error:\n        none = yield WarningEvent(error=error)", "    if error and not tpm_type._signed:\n        none = yield WarningEvent(error=error)")]),
+    dict(id="c07-raise-new", props=["C07"], rule="NI-1", names="strict branch",
+         edits=[(MARSHAL, "        if abort_on_error:\n            raise error\n\n    none = yield event", "        if abort_on_error:\n            raise ValueConstraintViolatedError(constraint=value_constraint, value=value_typed)\n\n    none = yield event")]),
+    dict(id="c07-extra-warning", props=["C07"], rule="NI-3", names="WarningEvent",
+         edits=[(MARSHAL, "    elements = tpm_type()\n    parent_path = path[:-1]\n    index = 0\n", "    elements = tpm_type()\n    parent_path = path[:-1]\n    index = 0\n    if not array_size_constraint.size_max:\n        yield WarningEvent(error=None)\n")]),
+    dict(id="c07-default-warn", props=["C07"], rule="NI-1", names="default",
+         edits=[(MARSHAL, "def process_tpm2b(tpm_type, path, size_constraints=None, abort_on_error=True):", "def process_tpm2b(tpm_type, path, size_constraints=None, abort_on_error=False):")]),
+    dict(id="c07-benign-rename-error", props=["C07", "C08", "C06"], benign=True,
+         edits=[(MARSHAL, """    except SizeConstraintExceededError as error:
+        if abort_on_error or error.constraint != tpm2b_size_constraint:
+            raise error
+        yield WarningEvent(error=error)""", """    except SizeConstraintExceededError as exc:
+        if abort_on_error or exc.constraint != tpm2b_size_constraint:
+            raise exc
+        yield WarningEvent(error=exc)""")]),
+    dict(id="c07-benign-kw-order", props=["C07", "C03"], benign=True,
+         edits=[(MARSHAL, """            count=buffer_size_exp,
+            size_constraints=size_constraints,
+            abort_on_error=abort_on_error,""", """            abort_on_error=abort_on_error,
+            count=buffer_size_exp,
+            size_constraints=size_constraints,""")]),
+]
+MUTANTS += MODE_MUTANTS
+
 MUTANTS = [m for m in MUTANTS if not m.get("skip_if_missing")]
